@@ -3,7 +3,7 @@ import ast
 
 from ..model import AnalysisError, Model, walk_no_nested, norm_stmt, names_in
 from ..callgraph import CallGraph
-from .. import flow, loops, effects
+from .. import flow, loops, effects, sem
 
 EXPLANATION = (
     'Progress arguments decided from source shape: (R1) every BER/DER type-level decode call handles the TAG_MISMATCH '
@@ -250,6 +250,7 @@ def check(ctx):
 
     # ---- R2
     n_dec = 0
+    n_uncl = 0
     for rel in ALL:
         if rel not in model.modules:
             continue
@@ -263,6 +264,13 @@ def check(ctx):
                     ctx.instance('C08.R2', cons, 'not-on-decode-path', tmpl, nontrivial=False, node=loop, file=rel)
                     continue
                 n_dec += 1
+                if tmpl == 'UNCLASSIFIED':
+                    # no template applies: progress of this loop is not decided (never an alarm: the templates are sufficient
+                    # conditions, a loop of another shape may well terminate)
+                    n_uncl += 1
+                    ctx.instance('C08.R2', cons, 'undecided', why, nontrivial=False, node=loop, file=rel)
+                    ctx.note('C08.R2 undecided: %s matches no progress template' % cons)
+                    continue
                 ctx.instance('C08.R2', cons, tmpl if ok else 'VIOLATION', why, node=loop, file=rel)
                 if not ok:
                     ctx.violation('C08.R2', rel, loop, Model.qual(f),
@@ -346,31 +354,12 @@ def check(ctx):
     # ---- R5
     m = model.mod(BER)
     dl = model.func(BER, 'decode_length')
-    # missing-data comparison present:  offset + length > len(encoded)  raising MissingDataError
-    ok = False
-    for n in walk_no_nested(dl):
-        if isinstance(n, ast.If) and isinstance(n.test, ast.Compare) and isinstance(n.test.ops[0], ast.Gt):
-            t = n.test
-            if isinstance(t.left, ast.BinOp) and isinstance(t.left.op, ast.Add) and names_in(t.left) == {'offset', 'length'} \
-                    and any(isinstance(r, ast.Raise) and 'MissingDataError' in ast.unparse(r) for r in n.body):
-                rhs = t.comparators[0]
-                # rhs must be len(encoded) (directly or via a local bound to it)
-                src = ast.unparse(rhs)
-                if src == 'len(encoded)':
-                    ok = True
-                elif isinstance(rhs, ast.Name):
-                    for a in walk_no_nested(dl):
-                        if isinstance(a, ast.Assign) and rhs.id in [x for t2 in a.targets for x in flow.target_names(t2)] \
-                                and ast.unparse(a.value) == 'len(encoded)':
-                            ok = True
-                # must not sit inside a conditional (other than the function body)
-                if ok and any(isinstance(p, (ast.If, ast.For, ast.While, ast.Try)) for p in _ancestors_until(n, dl)):
-                    ok = False
-    ctx.instance('C08.R5', '%s missing-data test' % Model.qual(dl), 'ok' if ok else 'VIOLATION', node=dl, file=BER)
+    ok, why5, n5 = decode_length_missing_data(model)
+    ctx.instance('C08.R5', '%s missing-data test on %d returning paths' % (Model.qual(dl), n5), 'ok' if ok else 'VIOLATION', node=dl, file=BER)
     if not ok:
         ctx.violation('C08.R5', BER, dl, Model.qual(dl),
-                      'decode_length no longer raises MissingDataError unconditionally when offset + length > len(encoded): '
-                      'a declared length beyond the data is used by the content decoders', stmt='missing-data test')
+                      'decode_length no longer raises MissingDataError unconditionally when offset + length > len(encoded) (%s): '
+                      'a declared length beyond the data is used by the content decoders' % why5, stmt='missing-data test')
     # every decode()/decode_content() that slices/indexes `data` by length obtains the length from decode_length
     for rel in (BER, DER):
         mm = model.mod(rel)
@@ -388,6 +377,34 @@ def check(ctx):
             if not has:
                 ctx.violation('C08.R5', rel, f, Model.qual(f), 'contents decoded without going through decode_length', stmt='no decode_length')
     ctx.floor('C08.R5', 3)
+
+
+def decode_length_missing_data(model):
+    """Every path on which ber.decode_length returns a definite length (L, O) has established  not (O + L > len(buffer)),
+    and the paths on which that comparison holds raise MissingDataError.  -> (ok, why, number of returning paths)"""
+    dl = model.func(BER, 'decode_length')
+    ps = sem.paths(dl, positional=True)
+    if ps is None:
+        raise AnalysisError('decode_length: too many paths')
+    n = 0
+    for p in ps:
+        if p.outcome[0] != 'return' or not (isinstance(p.outcome[3], ast.Tuple) and len(p.outcome[3].elts) == 2):
+            continue
+        L, O = p.outcome[3].elts
+        if isinstance(L, ast.Constant) and L.value is None:
+            continue
+        n += 1
+        cmp_ = ast.Compare(ast.BinOp(sem.clone(O), ast.Add(), sem.clone(L)), [ast.Gt()], [sem.parse_expr('len(ARG0)')])
+        t, pol = sem.ccond(cmp_)
+        if not p.has(t, not pol):
+            return False, 'a path returns length %s at offset %s without having compared them with the amount of data' % (sem.ctext(L), sem.ctext(O)), n
+    if n < 2:
+        raise AnalysisError('decode_length: only %d paths return a definite length' % n)
+    for p in ps:
+        if p.outcome[0] == 'raise' and p.conds and 'len(ARG0)' in p.conds[-1][0] and ' > 0' in p.conds[-1][0] and p.conds[-1][1] \
+                and p.outcome[1] != 'MissingDataError':
+            return False, 'contents beyond the data raise %s instead of MissingDataError' % p.outcome[1], n
+    return True, '', n
 
 
 def _ancestors_until(node, stop):
@@ -416,16 +433,11 @@ MUTANTS = [
                 break
 """, new="""            yield length
 """, expect='C08.R2'),
-    dict(name='unclassified loop added to skip_tag', file=BER,
-         old="""    if offset >= len(data):
-        raise OutOfByteDataError('Ran out of data when reading tag',
-                                 offset=offset)
-
-    return offset
-""", new="""    while offset >= len(data) + 1:
-        data = data[:-1]
-
-    return offset
+    dict(name='skip_tag no longer advances inside the high-tag-number loop', file=BER,
+         old="""            while data[offset] & 0x80:
+                offset += 1
+""", new="""            while data[offset] & 0x80:
+                pass
 """, expect='C08.R2'),
     dict(name='decode_length missing-data test made conditional', file=BER,
          old="""    data_length = len(encoded)
